@@ -277,9 +277,10 @@ func (t *TableProfile) ReadFrom(r io.Reader) (total int64, err error) {
 		{"columns", func(p *encoding.Parser) (n int64, err error) {
 			var j uint16
 			nFields := uint16(len(fields))
-			t.Columns = make([]*ColumnProfile, count)
+			// count comes from the stream: grow the slice as columns are actually read
+			t.Columns = make([]*ColumnProfile, 0, minUint32(count, 1024))
 			for i := uint32(0); i < count; i++ {
-				t.Columns[i] = &ColumnProfile{}
+				t.Columns = append(t.Columns, &ColumnProfile{})
 				for {
 					l, err := objline.ReadUint16(p, &j)
 					if err != nil {
